@@ -19,4 +19,4 @@ one() {
   echo "$kind $id: $r"
 }
 export -f one
-( for d in seeded/*; do echo "$d seeded"; done; for d in harmless/*; do echo "$d harmless"; done ) | xargs -P $J -L 1 bash -c 'one $0 $1'
+( for d in seeded/*; do echo "$d seeded"; done; for d in harmless/*; do echo "$d harmless"; done ) | { if [ -n "$ONLY" ]; then grep -E "/($(echo $ONLY | tr ' ' '|'))-"; else cat; fi; } | xargs -P $J -L 1 bash -c 'one $0 $1'
